@@ -2,6 +2,7 @@
 From Coq Require Export String Ascii List NArith ZArith Bool Arith Lia.
 Export ListNotations.
 Open Scope string_scope.
+Open Scope list_scope.   (* [++] is list append; use [String.append] / %string for strings *)
 
 (* arbitrary bytes in a case file: bs [195;156] *)
 Definition bs (l : list nat) : string :=
